@@ -40,6 +40,16 @@ theorem C05_ok (swr : Swr) (sc : Sched) (inp : Input) (hsz : C04.sizesOK inp = t
   rw [C05_removal swr sc inp hnd, C05_moveStep swr sc inp hsz hsw hnd]
   rfl
 
+/-- **C05 as monitored** (`Spec.C05.okAll`): with the clause for a move onto a shard that already holds
+    the target — whoever is told to turn a normal copy into an in-transfer one has an in-sync partner
+    that holds the target in normal state after the cycle -/
+theorem C05_okAll (swr : Swr) (sc : Sched) (inp : Input) (hsz : C04.sizesOK inp = true)
+    (hsw : C05.swrOK swr inp.opt = true) (hnd : NodupKeys inp) :
+    C05.okAll inp (Obs.ofOutcome (cycle swr sc inp)) = true := by
+  unfold C05.okAll
+  rw [C05_ok swr sc inp hsz hsw hnd, dstInSync_cycle swr sc inp hnd]
+  rfl
+
 /-- the hypothesis on series-with-rate is needed: with a function that rounds the limit down to 0
     relief fires on a shard that still has room, and scale-down moves the target straight back -/
 def exSwrBad : Swr := fun _ _ => 0
